@@ -2,13 +2,18 @@ import AwsVerif.Proofs.C05.Base64
 import AwsVerif.Proofs.C05.Hex
 import AwsVerif.Proofs.C05.Utf8
 import AwsVerif.Proofs.C05.Utf8Spec
+import AwsVerif.Proofs.C05.Avx2DecMain
+import AwsVerif.Proofs.C05.Avx2EncMain
 /-!
 # C05 — base64, hex and UTF-8 codecs are exact, canonical and CPU-path independent
 
 Theorems about `Model/Codec.lean` (portable code paths of `source/encoding.c`, tables regenerated
 from the source on every run) against `Model/CodecSpec.lean` (RFC 4648 / RFC 3629 written from the
-RFCs, no table of `/repo`).  The AVX2 code path is not modelled: "CPU-path independent" is these
-theorems for the portable path plus the differential run against the vector build.
+RFCs, no table of `/repo`).  "CPU-path independent": `Model/CodecAvx2.lean` is a hand model of
+`source/arch/intel/encoding_avx2.c` (intrinsics given their documented meaning — the trusted part;
+range constants, shuffle tables and loop bounds regenerated from the source) and the
+`c05_b64_avx2_*` theorems prove it equal to the portable model; both models are tied to the two C
+builds by the correspondence run.
 -/
 namespace AwsVerif.Props.C05
 open AwsVerif.Codec AwsVerif.CodecSpec AwsVerif.Proofs.C05
@@ -413,5 +418,49 @@ theorem c05_utf8_not_rfc3629 : ¬ c05_utf8_rfc3629_statement := by
 example : decodeUtf8 [0xF4, 0x90, 0x80, 0x80] = (none, [0x110000]) ∧ specUtf8 false [0xF4, 0x90, 0x80, 0x80] = none ∧
     decodeUtf8 [0xF4, 0x8F, 0xBF, 0xBF] = (none, [0x10FFFF]) ∧
     (decodeUtf8 [0xED, 0xA0, 0x80]).1 = some .invalidUtf8 ∧ (decodeUtf8 [0xC0, 0x80]).1 = some .invalidUtf8 := by decide +kernel
+
+/-! ## CPU-path independence: the AVX2 path against the portable path -/
+
+/-- for every text, pre-existing `len` and capacity, `aws_base64_decode` through the AVX2 code
+(`aws_common_private_base64_decode_sse41`: 32-character vector loop, bounce-buffer tail with 'A'
+fill, '=' stripping, trailing-bits check) returns the same code, leaves the same `output->len`,
+stores from the same offset and, when it succeeds, stores the same bytes as the portable decoder. -/
+theorem c05_b64_avx2_decode_eq_portable (t : List UInt8) (outLen cap : Nat) :
+    (AwsVerif.CodecAvx2.base64DecodeAvx2 t outLen cap).err = (base64Decode t outLen cap).err ∧
+    (AwsVerif.CodecAvx2.base64DecodeAvx2 t outLen cap).len = (base64Decode t outLen cap).len ∧
+    (AwsVerif.CodecAvx2.base64DecodeAvx2 t outLen cap).off = (base64Decode t outLen cap).off ∧
+    ((base64Decode t outLen cap).err = none →
+      (AwsVerif.CodecAvx2.base64DecodeAvx2 t outLen cap).wr = (base64Decode t outLen cap).wr) :=
+  base64DecodeAvx2_eq t outLen cap
+
+/-- hence strictness transfers: the AVX2 path accepts exactly the canonical encodings. -/
+theorem c05_b64_avx2_strict (t bs : List UInt8) (outLen cap : Nat) :
+    ((AwsVerif.CodecAvx2.base64DecodeAvx2 t outLen cap).err = none ∧
+      (AwsVerif.CodecAvx2.base64DecodeAvx2 t outLen cap).wr = bs) ↔ (t = specEncode bs ∧ bs.length ≤ cap) := by
+  obtain ⟨he, _, _, hw⟩ := base64DecodeAvx2_eq t outLen cap
+  rw [← c05_b64_strict t bs outLen cap, he]
+  constructor
+  · rintro ⟨h1, h2⟩; exact ⟨h1, by rw [← hw h1]; exact h2⟩
+  · rintro ⟨h1, h2⟩; exact ⟨h1, by rw [hw h1]; exact h2⟩
+
+/-- `aws_base64_encode` through the AVX2 code (`aws_common_private_base64_encode_sse41`: full-vector
+loop with 8 bytes of over-read, bounce-buffer loop, '=' stores) has exactly the effect of the
+portable encoder: same code, `len`, offset and bytes — for every input, `len` and capacity. -/
+theorem c05_b64_avx2_encode_eq_portable (bs : List UInt8) (outLen cap : Nat) :
+    AwsVerif.CodecAvx2.base64EncodeAvx2 bs outLen cap = base64Encode bs outLen cap :=
+  base64EncodeAvx2_eq bs outLen cap
+
+/-- per-byte facts of the vector translations, all 256 bytes enumerated: `decode_vec` accepts exactly
+the 64 alphabet bytes (value + 1; 0 = failed lane, in particular for '=' and for every byte ≥ 0x80 —
+the range test is the unsigned `min_epu8` idiom, no signed compare), `encode_chars` is the alphabet. -/
+theorem c05_b64_avx2_lanes :
+    (∀ c, c < 256 → AwsVerif.CodecAvx2.decodeLane c =
+      (match decVal (UInt8.ofNat c) false with | some v => v + 1 | none => 0)) ∧
+    (∀ i, i < 64 → AwsVerif.CodecAvx2.encodeLane i = (ch i).toNat) :=
+  ⟨decodeLane_table, encodeLane_table⟩
+
+example : (AwsVerif.CodecAvx2.base64DecodeAvx2 ((List.replicate 40 65) ++ [90, 109, 56, 61]) 0 32).wr =
+      List.replicate 30 0 ++ [102, 111] ∧
+    (AwsVerif.CodecAvx2.base64DecodeAvx2 [65, 66, 61, 61] 0 3).err = some .invalidBase64 := by decide +kernel
 
 end AwsVerif.Props.C05
